@@ -13,7 +13,7 @@ Open Scope list_scope.
 (* ---------------------------------------------------------------- tokens *)
 (* tag, call succeeded, result set non-empty *)
 Definition ev := (N * bool * bool)%type.
-Definition tBegin := 1.   Definition tCommit := 2.   Definition tRollback := 3.
+Definition tBegin := 1.   Definition tCommit := 2.   Definition tRollback := 3.   Definition tIso := 4.
 Definition tExec := 10.   Definition tQuery := 11.   Definition tPrepare := 12.
 Definition tStmtExec := 13. Definition tStmtQuery := 14.
 Definition tImg := 20.    Definition tSp := 21.      Definition tUndoP := 22.  Definition tUndo := 23.
@@ -46,12 +46,13 @@ Fixpoint evs_eqb (a b : list ev) : bool :=
 
 (* what the property allows the AT proxy to add inside a global transaction: image (and metadata)
    SELECTs, the savepoint of a locking read, the undo-log insert, coordinator messages, and — around an
-   autocommit statement — the local transaction bracket *)
+   autocommit statement — the local transaction bracket (BEGIN ... COMMIT, or BEGIN ... ROLLBACK when the target
+   answered driver.ErrSkip and database/sql carries on with a prepared statement) *)
 Definition is_extra (bracket : bool) (e : ev) : bool :=
   let t := ev_tag e in
   N.eqb t tImg || N.eqb t tSp || N.eqb t tUndoP || N.eqb t tUndo ||
   N.eqb t tReg || N.eqb t tReport || N.eqb t tLockQ || N.eqb t tTcOther ||
-  (bracket && (N.eqb t tBegin || N.eqb t tCommit)).
+  (bracket && (N.eqb t tBegin || N.eqb t tCommit || N.eqb t tRollback)).
 Definition erase_extra (bracket : bool) (es : list ev) : list ev :=
   filter (fun e => negb (is_extra bracket e)) es.
 Definition is_tc (e : ev) : bool :=
@@ -138,7 +139,13 @@ Inductive opk :=
 | OStmt (ty : string) (query : bool)   (* ty: the types.SQLType constant the repository's parser assigns *)
 | OBegin | OCommit | ORollback.
 
-Record op := { o_k : opk; o_conn : N (* 0 = the pool *); o_gtx : bool; o_ok : bool (* the caller saw success *) }.
+Record op := {
+  o_k : opk;
+  o_conn : N;      (* 0 = the pool *)
+  o_gtx : bool;    (* the operation's context carries an xid (irrelevant for commit / rollback) *)
+  o_ok : bool;     (* the caller saw success *)
+  o_vp : bool }.   (* bound arguments while the DSN has interpolateParams off: the target answers
+                      driver.ErrSkip to the direct call and database/sql prepares the statement *)
 
 Inductive proxy := AT | XA.
 
@@ -155,7 +162,8 @@ Definition bare_accepts (o : op) (obs : list ev) : bool :=
       mall [(direct_tag q, Some (o_ok o), None)] obs ||
       (negb (o_ok o) && mall [(tPrepare, None, None)] obs) ||
       mall [(tPrepare, Some true, None); (stmt_tag q, Some (o_ok o), None)] obs
-  | OBegin => (negb (o_ok o) && mall [] obs) || mall [(tBegin, Some (o_ok o), None)] obs
+  | OBegin => (negb (o_ok o) && mall [] obs) || mall [(tBegin, Some (o_ok o), None)] obs ||
+              mall [(tIso, Some true, None); (tBegin, Some (o_ok o), None)] obs   (* a non-default isolation level is its own statement *)
   | OCommit => (negb (o_ok o) && mall [] obs) || mall [(tCommit, Some (o_ok o), None)] obs
   | ORollback => (negb (o_ok o) && mall [] obs) || mall [(tRollback, Some (o_ok o), None)] obs
   end.
@@ -196,76 +204,105 @@ Definition bracketed (k : exkind) (q nz : bool) : option (list pat) :=
              else [ok1 tCommit]))
   end.
 
-(* per connection with an explicit transaction opened inside the global transaction:
-   (some DML executor ran, some statement produced undo rows) *)
-Definition txs := list (N * (bool * bool)).
-Fixpoint tx_get (c : N) (s : txs) : option (bool * bool) :=
+(* explicit transactions by connection: begun with a context WITHOUT an xid (a local transaction: no
+   branch, whatever contexts its statements run with), or with one: (some DML executor ran, some
+   statement produced undo rows) *)
+Inductive txk := TxL | TxG (d z : bool).
+Definition txs := list (N * txk).
+Fixpoint tx_get (c : N) (s : txs) : option txk :=
   match s with [] => None | (c', v) :: s' => if N.eqb c c' then Some v else tx_get c s' end.
 Fixpoint tx_del (c : N) (s : txs) : txs :=
   match s with [] => [] | (c', v) :: s' => if N.eqb c c' then tx_del c s' else (c', v) :: tx_del c s' end.
+Definition all_local (s : txs) : bool :=
+  forallb (fun x => match snd x with TxL => true | TxG _ _ => false end) s.
 
-Definition commit_pats (dz : bool * bool) : list pat :=
-  let '(d, z) := dz in
+Definition commit_pats (d z : bool) : list pat :=
   (if d then [ok1 tReg] else []) ++ undo_pats z ++ [ok1 tCommit] ++ (if d then [ok1 tReport] else []).
 
-(* is the local bracket the proxy's own (autocommit statement inside a global transaction)? *)
+(* the statement through the prepared path (o_vp): only the plain executor is modelled there *)
+Definition vp_pats (k : exkind) (q : bool) : option (list pat) :=
+  match k with ExPlain => Some [ok1 tPrepare; ok1 (stmt_tag q)] | _ => None end.
+
+(* is the local bracket the proxy's own (autocommit statement with an xid context)? *)
 Definition is_bracket (s : txs) (o : op) : bool :=
   match o_k o with
   | OStmt _ _ => o_gtx o && match tx_get (o_conn o) s with None => true | Some _ => false end
   | _ => false
   end.
 
+(* the XA proxy, autocommit statement on the pool with an xid context: registration, XA START, the
+   statement, XA END, XA PREPARE (the branch protocol itself is C17's subject) *)
+Definition xa_pats (q : bool) : list pat :=
+  [ok1 tReg; ok1 tOther; ok1 (direct_tag q); ok1 tOther; ok1 tOther].
+
+Definition accept (ps : option (list pat)) (obs : list ev) (s' : txs) : option txs :=
+  match ps with Some l => if mall l obs then Some s' else None | None => None end.
+
 (* one operation: None = the journal is not one the model allows (or the operation is outside the
-   modelled class: executor kinds upsert/multi, a failing statement or an autocommit statement on a
-   pinned connection inside a global transaction) *)
+   modelled class: executor kinds upsert/multi, a failing statement with an xid context, an autocommit
+   statement with an xid context on a pinned connection, a locking read with an xid context inside a
+   local transaction, DML through the prepared path with an xid context) *)
 Definition step (c : cfg) (px : proxy) (s : txs) (o : op) (obs : list ev) : option txs :=
-  if negb (cfg_ok c) then None
-  else if negb (o_gtx o) then
-    (* outside: the route is the plain executor, every method forwards: the bare language *)
-    match route c false (match o_k o with OStmt ty _ => ty | _ => EmptyString end) with
-    | ExPlain => if bare_accepts o obs then Some s else None
-    | _ => None
-    end
-  else match px with
-  | XA => None
-  | AT =>
-    if negb (o_ok o) then None else
-    match o_k o with
-    | OBegin =>
-        match tx_get (o_conn o) s with
-        | Some _ => None
-        | None => if mall [ok1 tBegin] obs then Some ((o_conn o, (false, false)) :: s) else None
+  if negb (cfg_ok c) then None else
+  match o_k o with
+  | OStmt ty q =>
+      if negb (o_gtx o) then
+        match route c false ty with
+        | ExPlain => if bare_accepts o obs then Some s else None
+        | _ => None
         end
-    | OCommit =>
-        match tx_get (o_conn o) s with
-        | None => None
-        | Some dz => if mall (commit_pats dz) obs then Some (tx_del (o_conn o) s) else None
-        end
-    | ORollback =>
-        match tx_get (o_conn o) s with
-        | None => None
-        | Some _ => if mall [ok1 tRollback] obs then Some (tx_del (o_conn o) s) else None
-        end
-    | OStmt ty q =>
-        let k := route c true ty in
-        let nz := img_nz obs in
-        match tx_get (o_conn o) s with
-        | None =>
-            if negb (N.eqb (o_conn o) 0) then None else
-            match bracketed k q nz with
-            | Some ps => if mall ps obs then Some s else None
-            | None => None
-            end
-        | Some (d, z) =>
-            match core k q nz with
-            | Some ps =>
-                if mall ps obs
-                then Some ((o_conn o, (d || is_dml k, z || has_undo k nz)) :: tx_del (o_conn o) s)
-                else None
-            | None => None
-            end
-        end
-    end
+      else if negb (o_ok o) then None
+      else match px with
+      | XA =>
+          match tx_get (o_conn o) s with
+          | None => if N.eqb (o_conn o) 0 && negb (o_vp o) then accept (Some (xa_pats q)) obs s else None
+          | Some _ => None
+          end
+      | AT =>
+          let k := route c true ty in
+          let nz := img_nz obs in
+          match tx_get (o_conn o) s with
+          | None =>
+              if negb (N.eqb (o_conn o) 0) then None
+              else if o_vp o
+              then accept (match vp_pats k q with Some l => Some ([ok1 tBegin; ok1 tRollback] ++ l) | None => None end) obs s
+              else accept (bracketed k q nz) obs s
+          | Some TxL =>
+              if o_vp o then accept (vp_pats k q) obs s
+              else match k with ExSfu => None | _ => accept (core k q nz) obs s end
+          | Some (TxG d z) =>
+              if o_vp o then accept (vp_pats k q) obs s
+              else accept (core k q nz) obs
+                     ((o_conn o, TxG (d || is_dml k) (z || has_undo k nz)) :: tx_del (o_conn o) s)
+          end
+      end
+  | OBegin =>
+      if negb (o_gtx o) then
+        if bare_accepts o obs
+        then Some (if o_ok o then (o_conn o, TxL) :: tx_del (o_conn o) s else s)
+        else None
+      else match px, tx_get (o_conn o) s with
+           | AT, None => if o_ok o then accept (Some [ok1 tBegin]) obs ((o_conn o, TxG false false) :: s) else None
+           | _, _ => None
+           end
+  | OCommit =>
+      match tx_get (o_conn o) s with
+      | Some (TxG d z) =>
+          match px with
+          | AT => if o_ok o then accept (Some (commit_pats d z)) obs (tx_del (o_conn o) s) else None
+          | XA => None
+          end
+      | _ => if bare_accepts o obs then Some (tx_del (o_conn o) s) else None
+      end
+  | ORollback =>
+      match tx_get (o_conn o) s with
+      | Some (TxG _ _) =>
+          match px with
+          | AT => if o_ok o then accept (Some [ok1 tRollback]) obs (tx_del (o_conn o) s) else None
+          | XA => None
+          end
+      | _ => if bare_accepts o obs then Some (tx_del (o_conn o) s) else None
+      end
   end.
 
 Fixpoint run (c : cfg) (px : proxy) (s : txs) (l : list (op * list ev)) : bool :=
@@ -281,6 +318,12 @@ Fixpoint erased (c : cfg) (s : txs) (l : list (op * list ev)) : list (op * list 
   | (o, obs) :: l' =>
       (o, erase_extra (is_bracket s o) obs) ::
       match step c AT s o obs with Some s' => erased c s' l' | None => [] end
+  end.
+
+Fixpoint run_state (c : cfg) (px : proxy) (s : txs) (l : list (op * list ev)) : option txs :=
+  match l with
+  | [] => Some s
+  | (o, obs) :: l' => match step c px s o obs with Some s' => run_state c px s' l' | None => None end
   end.
 
 Definition bare_run (l : list (op * list ev)) : bool := forallb (fun x => bare_accepts (fst x) (snd x)) l.
